@@ -335,7 +335,9 @@ fn json_text(text: &str, st: &mut Stats) -> CheckResult {
             if let Ok(saved) = saved {
                 let again = no_panic(|| serde_json::from_str::<Blueprint>(&saved)).map_err(|p| panic_failure("from_str::<Blueprint>(saved)", p, input.clone()))?;
                 match again {
-                    Ok(bp2) if bp2 == bp => {}
+                    // fixpoint after one normalisation step (a `$ref` with an unescaped `/` is
+                    // normalised to `~1` on save, so structural equality would be too strict)
+                    Ok(bp2) if bp2 == bp || serde_json::to_string(&bp2).ok().as_deref() == Some(saved.as_str()) => {}
                     Ok(_) => return Err(Failure::new("blueprint-save-load-differs", json!({"input": input, "saved": saved}))),
                     Err(e) => return Err(Failure::new("blueprint-saved-form-rejected", json!({"input": input, "saved": saved, "error": e.to_string()}))),
                 }
